@@ -12,10 +12,12 @@ EXTENDS BondOpsPure, Sequences, TLC
 
 CONSTANTS L, QD, DMAX, QB,        \* sites, physical charges (sequence), max bond dimension, bond charge alphabet
           Class,                   \* "mps" or "mpo"
-          TolNum, TolDen           \* compress: tolerance
+          TolNum, TolDen,          \* compress: tolerance
+          MaxCalls                 \* length of a history of calls on the same object (>= 1)
 
-VARIABLES qD, form, mode, op, pos, zero, sgn, pc, qD0, cut, eps
-vars == <<qD, form, mode, op, pos, zero, sgn, pc, qD0, cut, eps>>
+VARIABLES qD, form, mode, op, pos, zero, sgn, pc, qD0, cut, eps,
+          calls, prev             \* history: number of calls so far, <<mode, op, user modified the tensors since>> of the previous call
+vars == <<qD, form, mode, op, pos, zero, sgn, pc, qD0, cut, eps, calls, prev>>
 
 (* physical leg(s) of one site as a charge vector: qd for an MPS, qd - qd' for an MPO *)
 Phys == IF Class = "mps" THEN QD ELSE [k \in 1..(Len(QD) * Len(QD)) |-> QD[((k - 1) \div Len(QD)) + 1] - QD[((k - 1) % Len(QD)) + 1]]
@@ -33,6 +35,7 @@ Init == /\ qD \in [0..L -> BondSeqs]
         /\ mode \in {"left", "right"} /\ op \in {"ortho", "compress"}
         /\ (op = "compress" => Class = "mps")
         /\ pos = 0 /\ zero = FALSE /\ sgn = 1 /\ pc = "start" /\ qD0 = qD /\ cut = <<>> /\ eps = <<>>
+        /\ calls = 1 /\ prev = <<>>
 
 (* new bond charges after the local factorization of site i in direction dir: any sequence whose charge counts are *)
 (* bounded by the block-wise min (equal for QR; fewer after a truncating SVD)                                      *)
@@ -53,7 +56,7 @@ SetBond(i, dir, b) == IF dir = "left" THEN [qD EXCEPT ![i] = b] ELSE [qD EXCEPT 
 Start == /\ pc = "start"
          /\ pc' = IF op = "ortho" THEN "sweep" ELSE "pre"
          /\ pos' = IF (op = "ortho") = (mode = "left") THEN 1 ELSE L
-         /\ UNCHANGED <<qD, form, mode, op, zero, sgn, qD0, cut, eps>>
+         /\ UNCHANGED <<qD, form, mode, op, zero, sgn, qD0, cut, eps, calls, prev>>
 
 SweepDir == IF pc = "pre" THEN (IF mode = "left" THEN "right" ELSE "left") ELSE mode
 
@@ -76,15 +79,26 @@ LocalStep ==
              IN IF nxt \in 1..L THEN pos' = nxt /\ pc' = pc /\ sgn' = sgn
                 ELSE IF pc = "pre" THEN /\ pc' = "sweep" /\ pos' = (IF mode = "left" THEN 1 ELSE L) /\ sgn' = 1
                      ELSE /\ pc' = "sign" /\ pos' = pos /\ sgn' \in {-1, 1}
-    /\ UNCHANGED <<mode, op, qD0>>
+    /\ UNCHANGED <<mode, op, qD0, calls, prev>>
 
 (* the trailing 1x1 factor gives the norm; a negative one is flipped into the boundary tensor *)
 SignFlip == /\ pc = "sign"
             /\ sgn' = 1
             /\ pc' = "return"
-            /\ UNCHANGED <<qD, form, mode, op, pos, zero, qD0, cut, eps>>
+            /\ UNCHANGED <<qD, form, mode, op, pos, zero, qD0, cut, eps, calls, prev>>
 
-Next == Start \/ LocalStep \/ SignFlip
+(* A history: after a call has returned the user may overwrite site tensors (poked: the forms are lost, the charges stay) *)
+(* and call orthonormalize / compress again on the same object, in either direction.                                 *)
+Again == /\ pc = "return" /\ calls < MaxCalls
+         /\ \E m \in {"left", "right"}, o \in {"ortho", "compress"}, poked \in BOOLEAN :
+               /\ (o = "compress" => Class = "mps")
+               /\ mode' = m /\ op' = o
+               /\ prev' = <<mode, op, poked>>
+               /\ form' = IF poked THEN [i \in 1..L |-> "gen"] ELSE form
+         /\ calls' = calls + 1 /\ pc' = "start" /\ pos' = 0 /\ sgn' = 1 /\ qD0' = qD /\ cut' = <<>> /\ eps' = <<>>
+         /\ UNCHANGED <<qD, zero>>
+
+Next == Start \/ LocalStep \/ SignFlip \/ Again
 Spec == Init /\ [][Next]_vars
 
 ----------------------------------------------------------------------------
@@ -107,6 +121,10 @@ OrderOK == Done =>
     /\ op = "compress" => \A k \in 1..L : cut[k][2] = (IF mode = "left" THEN L + 1 - k ELSE k)
 (* C02: the total charges of a non-zero state never change; the dummy branch is taken only on the zero state *)
 BoundaryOK == (Done /\ ~zero) => (qD[0] = qD0[0] /\ qD[L] = qD0[L])
+(* histories: a QR sweep in the direction of the previous call's final sweep finds the bond charges at their fixed point *)
+(* (whatever the user did to the tensor entries in between: the QR never inspects ranks)                               *)
+Idempotent == (Done /\ calls > 1 /\ op = "ortho" /\ prev[1] = mode) => qD = qD0
+(* an untouched canonical object: a further call in the same direction leaves every form in place *)
 (* C13: scale^2 = prod (1 - e_i) >= 1 - sum e_i >= 1 - L tol  with e_i in {0, tol/2, tol}, as integers over (2 TolDen)^n *)
 RECURSIVE Prod(_, _)
 Prod(s, k) == IF k > Len(s) THEN 1 ELSE (2 * TolDen - s[k] * TolNum) * Prod(s, k + 1)
